@@ -258,6 +258,54 @@ def job_history(gen, dim, seq, tier):
     return out
 
 
+def job_mesh(points, tier):
+    """SRF.mesh on a meshio mesh with several cell blocks: the value stored for a cell (point) is the field of the same seed at
+    its centroid (at the point), whatever the number, order and sizes of the blocks"""
+    gs = setup()
+    import meshio
+
+    T = core.tier_timeout(tier)
+    out = []
+    v, l = real("var"), real("len")
+    wv = {"var": v, "len": l}
+    rb = ("mesh", lambda vals: {"points": points, "values": vals})
+    pts = rnp.array([[0.0, 0.0], [1.0, 0.0], [2.0, 0.5], [0.0, 1.0], [1.0, 1.5], [2.5, 2.0], [0.5, 2.5]])
+    cells = [("triangle", rnp.array([[0, 1, 3], [1, 2, 4]])), ("quad", rnp.array([[1, 2, 5, 4]])), ("line", rnp.array([[3, 6], [4, 6], [5, 6]])), ("triangle", rnp.array([[3, 4, 6]]))]
+
+    def run():
+        rngstub.reset()
+        sym.assume(v > 0)
+        sym.assume(l > 0)
+        srf, model = make_srf(gs, "RandMeth", 2, dict(var=v, len_scale=l), seed=7)
+        mesh = meshio.Mesh(pts, cells)
+        srf.mesh(mesh, points=points, name="fld", seed=11)
+        if points == "centroids":
+            got = [rnp.array(b, dtype=object) for b in mesh.cell_data["fld"]]
+            want = []
+            for _t, conn in cells:
+                cen = pts[conn].mean(axis=1)
+                want.append([srf([[c[0]], [c[1]]], seed=11, store="ref")[0] for c in cen])
+        else:
+            got = [rnp.array(mesh.point_data["fld"], dtype=object)]
+            want = [[srf([[p_[0]], [p_[1]]], seed=11, store="ref")[0] for p_ in pts]]
+        return got, want
+
+    for pi, p in enumerate(explore(run, max_paths=16)):
+        base = f"C11/mesh/{points}/path{pi}"
+        if p.exc is not None:
+            out.append(rec(base, "error", detail=f"{p.exc!r} {p.tb}"))
+            continue
+        got, want = p.out
+        C = p.conds + list(rngstub.FACTS)
+        if len(got) != len(want) or any(len(g) != len(w_) for g, w_ in zip(got, want)):
+            out.append(rec(base + "/block structure of the stored data", "sat", witness={}, replay={"kind": "mesh", "inputs": rb[1]({})}, detail=f"{[len(g) for g in got]} vs {[len(w_) for w_ in want]}"))
+            continue
+        for k, (g, w_) in enumerate(zip(got, want)):
+            for c in range(len(w_)):
+                out.append(prove(f"{base}/block {k} entry {c} == field of the same seed at its {'centroid' if points == 'centroids' else 'point'}", C, core.eq(g[c], w_[c]), T, witness_vars=wv, replay=rb, pairwise=False))
+    return out
+
+
 def job_seed_identity(gen, dim, tier):
     """equal seed values as the same object vs as distinct objects: equal histories give equal nugget noise"""
     gs = setup()
@@ -297,7 +345,7 @@ def job_seed_identity(gen, dim, tier):
 
 
 def jobs(tier, seed):
-    js = []
+    js = [Job("mesh-centroids", job_mesh, "centroids", tier), Job("mesh-points", job_mesh, "points", tier)]
     for gen in GENS:
         for dim in (1, 2):
             js.append(Job(f"locality-{gen}-d{dim}", job_locality, gen, dim, tier))
@@ -451,4 +499,32 @@ def replay_seed_identity(inputs):
     return bool(ok), f"{gen} d{dim}: same object -> {a[1].tolist()} ; equal distinct objects -> {b[1].tolist()}"
 
 
-REPLAY = {"locality": replay_locality, "history": replay_history, "seed_identity": replay_seed_identity}
+def replay_mesh(inputs):
+    import numpy as np
+    import meshio
+    import gstools as gs
+
+    v = inputs.get("values") or {}
+    points = inputs["points"]
+    var, l = abs(_val(v, "var", 1.3)) or 1.3, abs(_val(v, "len", 2.0)) or 2.0
+    pts = np.array([[0.0, 0.0], [1.0, 0.0], [2.0, 0.5], [0.0, 1.0], [1.0, 1.5], [2.5, 2.0], [0.5, 2.5]])
+    cells = [("triangle", np.array([[0, 1, 3], [1, 2, 4]])), ("quad", np.array([[1, 2, 5, 4]])), ("line", np.array([[3, 6], [4, 6], [5, 6]])), ("triangle", np.array([[3, 4, 6]]))]
+    srf = gs.SRF(gs.Gaussian(dim=2, var=var, len_scale=l), seed=7, mode_no=40)
+    mesh = meshio.Mesh(pts, cells)
+    srf.mesh(mesh, points=points, name="fld", seed=11)
+    bad = []
+    if points == "centroids":
+        for k, (_t, conn) in enumerate(cells):
+            cen = pts[conn].mean(axis=1)
+            want = srf(cen.T, seed=11, store=False)
+            got = np.asarray(mesh.cell_data["fld"][k], dtype=float)
+            if got.shape != want.shape or not np.allclose(got, want, rtol=1e-10):
+                bad.append(f"block {k}: stored {got.tolist()} but the field at the centroids is {want.tolist()}")
+    else:
+        want = srf(pts.T, seed=11, store=False)
+        if not np.allclose(mesh.point_data["fld"], want, rtol=1e-10):
+            bad.append("point data")
+    return (not bad), f"mesh {points}: {bad[:3]}"
+
+
+REPLAY = {"mesh": replay_mesh, "locality": replay_locality, "history": replay_history, "seed_identity": replay_seed_identity}
